@@ -366,7 +366,7 @@ PROPS["C14"] = {
     "level_text": "O1: formatting, semanticTokens/full, documentSymbol, pull diagnostics, foldingRange and hovers of the server that received the changes must equal those of a second server that got the "
                   "editor's final text in one didOpen. O2: every range in those answers must lie on character boundaries of the editor's text measured in UTF-16 units, semantic tokens must not be empty or "
                   "split a surrogate pair, documentSymbol selection ranges must cover the symbol's name. O3: prepareRename at every identifier start returns exactly that identifier's range.",
-    "level_note": "Workload additions (round d): a third of the documents exist as files holding the text at open time; workspace/didChangeWatchedFiles (created/changed) notifications for the open document arrive between the changes. Deleted events are not sent. Only valid ranges are sent (what a conforming editor sends). The server binary is the workspace's trust-lsp built from the working tree into /verif/target/repo.",
+    "level_note": "Workload additions (round d): a third of the documents exist as files holding the text at open time; workspace/didChangeWatchedFiles (created/changed) notifications for the open document arrive between the changes. Every third such event removes the file and reports it deleted. Only valid ranges are sent (what a conforming editor sends). The server binary is the workspace's trust-lsp built from the working tree into /verif/target/repo.",
     "assumptions": ["the UTF-16 editor model in harness/src/lsp.rs (lines split on LF, CR belongs to the terminator) is the trusted base"],
     "design_ref": "DESIGN.md section 8 (as built; plan in section 3), C14",
 }
